@@ -44,8 +44,12 @@ def quantified_nullable_groups(tier):
     return out
 
 
+PREFIX_ALTERNATIONS = ["a|ab", "ab|a", "=|==", "[a-z]+|if", "if|[a-z]+", "a|ab|abc", "abc|ab|a", "(a|ab)c", "(a|ab)*", "x(a|ab|b)y", "a?|ab", "a|a*b",
+                       "(a|ab)(c|bcd)", "0|0x[0-9]+", "[0-9]+|[0-9]+\\.[0-9]+"]
+
+
 def patterns_for(tier, rng):
-    pats = R.corpus(PROP) + NULLABLE_SHAPES + followpos_shapes(tier) + quantified_nullable_groups(tier) + list(R.EVERY_CONSTRUCT)
+    pats = R.corpus(PROP) + NULLABLE_SHAPES + PREFIX_ALTERNATIONS + followpos_shapes(tier) + quantified_nullable_groups(tier) + list(R.EVERY_CONSTRUCT)
     pats += R.small_exhaustive() if tier != "quick" else R.small_exhaustive()[::3]
     n = 120 if tier == "quick" else 2500
     for _ in range(n):
